@@ -21,7 +21,9 @@ CHECKS = {
  "C02": dict(text=SYS + "Proved (all states): each scheduling decision leaves the node with >=2 tests, a shutdown, an owed steal answer or an empty pool; tests_finished => shutdown triggered; "
              "a worker with a successor can always step. SYSTEM level for --dist load without worker failure (Progress.v, Termination.v), every configuration and schedule: no stand-off "
              "(some component can always make a useful move while the session has not ended) and TERMINATION (an explicit measure decreases with every useful step; a maximal run has ended). "
-             "Partial: with worker failures, and for the other modes, the composition into 'no reachable stuck state' is searched by the stuck-state monitor and the worker-level race search, not proved.", design="5/C02", technique=TECH),
+             "For load ALSO WITH arbitrary worker crashes (CrashProgress.v, CrashTermination.v): no stand-off for any restart budget, re-queueing, differing collections; termination for every finite budget. "
+             "Scope family without failures: no stand-off and termination (ProgressScope.v, TerminationScope.v). Partial: the remaining mode/failure combinations are searched by the stuck-state monitor and the worker-level race search, not proved; "
+             "the each-mode stand-off with a disagreeing replacement is a recorded finding.", design="5/C02", technique=TECH),
  "C03": dict(text=SYS + "Proved (all states/events): one death notice yields at most one crash report, no other event yields one; the crash item is the head of the dead node's book / first "
              "undone test, the rest returns to the pool once, finished units are not re-queued. SYSTEM level for --dist load with arbitrary crashes (CrashTheorems.v, CrashTokens.v): every crash report names the test the dead worker was executing or "
              "about to start; without a re-queueing plugin no test is ever started twice; pool ++ all workers' holdings ++ crashed tests is a permutation of the collection.", design="5/C03", technique=TECH),
